@@ -405,9 +405,9 @@ def case_geox(ctx, case, be=None):
         else:
             m = navis.geodesic_matrix(target, **kw)
     except ValueError as e:
-        if 'math domain' in str(e) and case['limit'] == ['str', 0]:
-            # map_units('0 nm') -> round_smart(0.0) -> log10(0): the limit never reaches geodesic_matrix' own code
-            ctx.oracle(False, f'{what} raised ValueError: {str(e)[:80]}', case, signature=SIG_LIMIT_ZERO_STR)
+        if case['limit'] == ['str', 0] and not missing:
+            # regression (fixed in navis by 0b634c2): map_units('0 nm') -> round_smart(0.0) took log10(0)
+            ctx.oracle(False, f'{what} raised ValueError: {str(e)[:80]} for a zero quantity given as a unit string', case, signature=SIG_LIMIT_ZERO_STR)
             return
         ctx.oracle(missing, f'{what} raised ValueError: {str(e)[:80]}', case)
         ctx.corr('ERR:not-present', mw, f'{what}: ValueError vs as-written model', case)
@@ -587,15 +587,15 @@ def case_adjx(ctx, case, be=None):
         ctx.oracle(False, f'skeleton_adjacency_matrix(sort=False) raised {type(e).__name__}: {str(e)[:80]} {tag}', case)
     # sort=True: the cached view and the function default
     for how in ('prop', 'func'):
-        sig = SIG_ADJ_MULTIROOT if nroots > 1 else None
+        # forests too (regression: node_label_sorting used to refuse multi-root skeletons)
         try:
             adj = x.adjacency_matrix if how == 'prop' else GU.skeleton_adjacency_matrix(x)
         except Exception as e:
             ctx.oracle(False, f'adjacency matrix (sort=True, {how}) raised {type(e).__name__}: {str(e)[:60]} on a skeleton with {"several roots" if nroots > 1 else "one root"} {tag}',
-                       case, signature=sig if (isinstance(e, ValueError) and 'multi-root' in str(e)) else None)
+                       case, signature=SIG_ADJ_MULTIROOT if (nroots > 1 and isinstance(e, ValueError) and 'multi-root' in str(e)) else None)
             ctx.count('adj_sorted', f'{how}:raises' + (':multi-root' if nroots > 1 else ''))
             continue
-        ctx.count('adj_sorted', f'{how}:ok')
+        ctx.count('adj_sorted', f'{how}:ok' + (':multi-root' if nroots > 1 else ''))
         ok = adj.index.tolist() == adj.columns.tolist() and sorted(int(v) for v in adj.index.tolist()) == sorted(ids)
         ctx.oracle(ok, f'adjacency matrix (sort=True, {how}): rows/columns are not labelled by the node ids (each once, same order) {tag}', case)
         if ok:
@@ -684,8 +684,7 @@ def observe(ctx, x, case, be, step):
                 compare_segments(ctx, x, wire, 1, segs, case, w)
                 got = ','.join(fmt(navis.segment_length(x, s)) if len(s) > 1 else '0' for s in segs)
                 ctx.defn(got, ctx.ask(f'c05x.seglen 1 | {wire} | {segs_wire(segs)}'), f'segment_length of every segment {w}', case)
-        if sum(1 for p in x.nodes.parent_id.values if p < 0) == 1:
-            ctx.defn(adj_rel(x.adjacency_matrix), ctx.ask('f.adj ' + wire), f'x.adjacency_matrix {w}', case)
+        ctx.defn(adj_rel(x.adjacency_matrix), ctx.ask('f.adj ' + wire), f'x.adjacency_matrix {w}', case)
         adj = GU.skeleton_adjacency_matrix(x, sort=False)
         ctx.defn(adj_rel(adj), ctx.ask('f.adj ' + wire), f'skeleton_adjacency_matrix(sort=False) {w}', case)
         ids = [int(i) for i in x.nodes.node_id.values]
@@ -796,11 +795,12 @@ def case_segx(ctx, case, be=None):
             try:
                 vals = getattr(nl, attr)
             except ValueError as e:
-                # np.array(list of per-neuron lists) in NeuronList.__getattr__: ragged at the second level
+                # regression: np.array(list of per-neuron lists) in NeuronList.__getattr__ used to raise when ragged at the second level
                 same = len({len(getattr(n, attr)) for n in nl}) == 1
                 ctx.oracle(False, f'NeuronList.{attr} raised ValueError: {str(e)[:60]} {tag}', case,
                            signature=SIG_NL_RAGGED if (same and 'inhomogeneous' in str(e)) else None)
                 continue
+            ctx.oracle(len(vals) == 2, f'NeuronList.{attr} does not hold one entry per neuron {tag}', case)
             for s, wr in zip(vals, (wire, wy)):
                 s = [[int(v) for v in q] for q in s]
                 if attr == 'segments':
@@ -979,6 +979,8 @@ def guarded(kind, fn):
     """An exception escaping from navis while the neuron under test is built / warmed up (cached views read) or from an
     unguarded call is a failing input, not an infrastructure failure."""
     def run_case(ctx, case, be=None):
+        # failures carry the kind (and back-end) so that a replay file re-runs exactly this case
+        case = dict(case, kind=kind, **({'be': be} if be else {}))
         try:
             return fn(ctx, case, be)
         except (AssertionError, RuntimeError, BrokenPipeError):
